@@ -288,23 +288,42 @@ import (
 	"github.com/inspirer/textmapper/zzverif/gen/{{.Name}}/token"
 )
 
-// ZZParse drives the generated parser through its public API.
-func ZZParse(ctx context.Context, in string, ev func(t, flags, off, end int), eh func(line, off, end int) bool) error {
+// ZZSession keeps one Parser (and lexer / token stream) object for several parses.
+type ZZSession struct {
+	p Parser
+{{- if .TokenStream}}
+	s TokenStream
+{{- else}}
+	lx Lexer
+{{- end}}
+}
+
+// Parse drives the generated parser through its public API.
+func (z *ZZSession) Parse(ctx context.Context, in string, ev func(t, flags, off, end int), eh func(line, off, end int) bool) error {
 	l := func(t NodeType, off, end int) { ev(int(t), 0, off, end) }
 {{- if .TokenStream}}
-	var s TokenStream
-	s.Init(in, l)
+	z.s.Init(in, l)
 {{- else}}
-	var lx Lexer
-	lx.Init(in)
+	z.lx.Init(in)
 {{- end}}
-	var p Parser
 {{- if .Recovery}}
-	p.Init(func(se SyntaxError) bool { return eh({{if .TokenLine}}se.Line{{else}}0{{end}}, se.Offset, se.Endoffset) }, l)
+	z.p.Init(func(se SyntaxError) bool { return eh({{if .TokenLine}}se.Line{{else}}0{{end}}, se.Offset, se.Endoffset) }, l)
 {{- else}}
-	p.Init(l)
+	z.p.Init(l)
 {{- end}}
-	return p.Parse(ctx, {{if .TokenStream}}&s{{else}}&lx{{end}})
+	return z.p.Parse(ctx, {{if .TokenStream}}&z.s{{else}}&z.lx{{end}})
+}
+
+// ZZNewSession returns a parse function bound to one reusable set of objects.
+func ZZNewSession() func(ctx context.Context, in string, ev func(t, flags, off, end int), eh func(line, off, end int) bool) error {
+	z := &ZZSession{}
+	return z.Parse
+}
+
+// ZZParse parses with fresh objects.
+func ZZParse(ctx context.Context, in string, ev func(t, flags, off, end int), eh func(line, off, end int) bool) error {
+	var z ZZSession
+	return z.Parse(ctx, in, ev, eh)
 }
 
 // ZZTokenEnds lexes in with the generated lexer alone; tokens that are never shifted are left out.
@@ -451,8 +470,8 @@ func generateBatch(cfg *config, ov *overlay, info map[string]any) error {
 	var names []string
 	for _, in := range good {
 		addGenerated(cfg, ov, in)
-		fmt.Fprintf(&reg, "\tregisterGenerated(%q, %s.ZZParse, %s.ZZTokenEnds, &corpus{prologue: %q, sep: %q, items: %#v}, %#v, %v, %v)\n",
-			in.Desc, in.Name, in.Name, in.Family.prologue, in.Family.sep, in.Family.items, in.Family.deep, in.Recovery, in.Family.lookaheads)
+		fmt.Fprintf(&reg, "\tregisterGenerated(%q, %s.ZZParse, %s.ZZNewSession, %s.ZZTokenEnds, &corpus{prologue: %q, sep: %q, items: %#v}, %#v, %v, %v)\n",
+			in.Desc, in.Name, in.Name, in.Name, in.Family.prologue, in.Family.sep, in.Family.items, in.Family.deep, in.Recovery, in.Family.lookaheads)
 		names = append(names, in.Desc)
 	}
 	reg.WriteString("}\n")
